@@ -148,11 +148,15 @@ func unitsAll(prop string, mon Monitor) func(tier string) []runner.Unit {
 			{CW: many(4500, 16), SW: []int{3}, RB: 4096, ReadDelay: 4 * time.Second},
 			{CW: []int{7}, SW: many(4500, 9), RB: 65536, ReadDelay: 12 * time.Second},
 			{CW: many(4200, 1300), SW: []int{1}, RB: 65536, ReadDelay: 7 * time.Second},
+			{CW: many(4500, 100), SW: []int{3}, RB: 65536, ReadDelay: 130 * time.Second},
 		} {
+			if base.ReadDelay > time.Minute && tier != "thorough" {
+				continue // minutes of real time per execution: thorough tier only
+			}
 			p := base
 			p.Prop, p.UDP, p.MTU, p.Latency, p.NSess, p.Seed = prop, true, 1400, 5*time.Millisecond, 1, int64(600+i)
 			p.CTP, p.STP = "nil", "nil"
-			p.Horizon = 300 * time.Second
+			p.Horizon = 600 * time.Second
 			us = append(us, runner.Unit{Name: fmt.Sprintf("stalled-reader-%d", i), Cost: 8, Run: func(u *runner.U) {
 				RunOne(u, p, pats, explore.Bound{}, mon)
 			}})
